@@ -48,7 +48,7 @@ theorem agr_agree (sp : Spec) (ty : Typ) (hc : C08Cond sp ty = true) :
     | none => rfl
     | some i =>
       simp only [Bool.and_eq_true, Bool.or_eq_true, Bool.not_eq_true'] at hint
-      obtain ⟨⟨_, hwos⟩, _⟩ := hint
+      obtain ⟨_, hwos⟩ := hint
       cases i
       case wos | was =>
         have ha : agrOfArg subj = ⟨.p3, .s⟩ := by simpa [subjAgrOf] using hwos
@@ -67,7 +67,7 @@ theorem agr_agree (sp : Spec) (ty : Typ) (hc : C08Cond sp ty = true) :
         | none => rfl
         | some i =>
           simp only [Bool.and_eq_true, Bool.or_eq_true, Bool.not_eq_true'] at hint
-          obtain ⟨⟨_, hwos⟩, _⟩ := hint
+          obtain ⟨_, hwos⟩ := hint
           cases i
           case wos | was =>
             have ha : (⟨.p3, a.n⟩ : Agr) = ⟨.p3, .s⟩ := by simpa [subjAgrOf, agrOfArg] using hwos
@@ -83,33 +83,17 @@ theorem notations_agree_en_partial :
   obtain ⟨hpend, hagr⟩ := agr_agree sp ty hc
   have hd := dep_nf sp ty
   have hdl : lin .dep sp ty = linDep sp ty (clauseWords sp ty) := rfl
-  rcases phrase_nf sp ty with ⟨outp, houtp, hmainp, hagrp⟩ | ⟨hv, hi, he⟩
-  · -- the constituent side succeeds
-    have hlp : lin .phrase sp ty = some (linPh (midPh sp ty.pas) ty.int (clauseWords sp ty)) := by
-      simp only [lin]
-      split
-      · rename_i hcnd
-        have := phrase_tag_noV sp ty _ hcnd.1 hcnd.2
-        rw [this] at houtp
-        cases houtp
-      · rfl
-    rw [hlp, hdl] at hl
-    rw [← hl] at hd
-    simp only at hd
-    obtain ⟨outd, houtd, hmaind, hagrd⟩ := hd
-    have e1 : realize .phrase sp ty = .ok outp := houtp
-    have e2 : realize .dep sp ty = .ok outd := houtd
-    rw [e1, e2]
-    simp only [Except.map]
-    rw [hmainp, hmaind, hagrp hpend, hagrd, hagr]
-  · -- the constituent side raises: so does the other
-    have hlp : lin .phrase sp ty = none := by simp [lin, hv, hi]
-    rw [hlp, hdl] at hl
-    rw [← hl] at hd
-    simp only at hd
-    have e1 : realize .phrase sp ty = .error .attributeError := he
-    have e2 : realize .dep sp ty = .error .attributeError := hd
-    rw [e1, e2]
+  obtain ⟨outp, houtp, hmainp, hagrp⟩ := phrase_nf sp ty
+  have hlp : lin .phrase sp ty = some (linPh (midPh sp ty.pas) ty.int (clauseWords sp ty)) := rfl
+  rw [hlp, hdl] at hl
+  rw [← hl] at hd
+  simp only at hd
+  obtain ⟨outd, houtd, hmaind, hagrd⟩ := hd
+  have e1 : realize .phrase sp ty = .ok outp := houtp
+  have e2 : realize .dep sp ty = .ok outd := houtd
+  rw [e1, e2]
+  simp only [Except.map]
+  rw [hmainp, hmaind, hagrp hpend, hagrd, hagr]
 
 /-! non-vacuity: a negated perfect `why` question, and a passive, satisfy the side conditions -/
 example : C08Cond ⟨.pro ⟨.p1, .p, .m⟩, .other, .ps, some (.np ⟨2, .p, .n⟩), [(s "with", ⟨3, .s, .n⟩)]⟩
